@@ -151,6 +151,9 @@ pub fn value_cfg(report: &Report, conformance: bool, tier: Tier) -> ValueCfg {
     if report.known.any_open("fragmented-list-or-string") {
         cfg.max_big_elems = 16383;
     }
+    if report.known.any_open("open-type-over-16k") {
+        cfg.cap_open_types = true;
+    }
     cfg
 }
 
@@ -161,18 +164,14 @@ pub fn run_c01(ctx: Ctx) -> i32 {
     report.assumption("values are built through the public Reader trait (ValueReader bridge); BIT STRING values are in the canonical form the public constructors produce");
     report.assumption("values not representable in the generated Rust field type are counted (unbuildable) and skipped; encoder refusals and encoder panics end a history (nothing is claimed about a writer after Err)");
     let zoo = load_zoo();
+    let replay = |case: &J| -> Result<(), Fail> {
+        let (msgs, filler) = history_from_json(&zoo, case).map_err(|e| ("harness:replay".to_string(), e))?;
+        check_history(&zoo, &msgs, filler, &mut HistStats::default())
+    };
     if let Some(path) = &ctx.replay {
         let j = read_replay(path);
-        let (msgs, filler) = match history_from_json(&zoo, &j["case"]) {
-            Ok(x) => x,
-            Err(e) => {
-                eprintln!("cannot replay: {e}");
-                return 2;
-            }
-        };
         report.eval(1);
-        let mut st = HistStats::default();
-        match check_history(&zoo, &msgs, filler, &mut st) {
+        match replay(&j["case"]) {
             Ok(()) => println!("replay: case passes"),
             Err((key, msg)) => {
                 report.fail(&key, &msg, j["case"].clone());
@@ -180,9 +179,10 @@ pub fn run_c01(ctx: Ctx) -> i32 {
         }
         return report.finish();
     }
+    report.run_probes(&replay);
     let tier = ctx.tier;
     let n_entries = zoo.entries.len();
-    let per_group = tier.pick(24u32, 400u32);
+    let per_group = tier.pick(160u32, 2000u32);
     let bad = run_in_workers(&report, 16, std::time::Duration::from_secs(tier.pick(900, 10800)), &|report: &Report| {
         let cfg = value_cfg(report, false, tier);
         // one group per entry: the entry itself plus up to 3 pseudo-randomly chosen partners
@@ -196,7 +196,7 @@ pub fn run_c01(ctx: Ctx) -> i32 {
             let k = 1 + (h % 4) as usize;
             let members: Vec<usize> = (0..k).map(|i| if i == 0 { g } else { ((h >> (8 * i)) as usize).wrapping_mul(2654435761) % n_entries }).collect();
             let strategies: Vec<BoxedStrategy<Value>> = members.iter().map(|&ei| gen::def_value_strategy(&zoo.entries[ei].module, &zoo.entries[ei].def, cfg)).collect();
-            let strat = (0..8usize, strategies, any::<bool>());
+            let strat = (0..8usize, strategies, any::<bool>().prop_map(|multi| !multi));
             let mut runner = report.ctx.runner("c01", g as u64, per_group);
             let mut local = Local::default();
             let failed = std::cell::Cell::new(false);
@@ -205,12 +205,16 @@ pub fn run_c01(ctx: Ctx) -> i32 {
                 // half of the cases: the group's own entry alone on a fresh writer
                 let msgs: Vec<(usize, Value)> = if single { vec![(members[0], values[0].clone())] } else { members.iter().copied().zip(values.into_iter()).collect() };
                 let filler = if single { 0 } else { filler };
+                let before = msgs.len();
+                let msgs: Vec<(usize, Value)> = msgs.into_iter().filter(|(ei, v)| !gen::def_excluded_by_findings(&zoo.entries[*ei].module, &zoo.entries[*ei].def, v, cfg)).collect();
+                let excluded = before - msgs.len();
                 let mut st = HistStats::default();
                 let res = check_history(&zoo, &msgs, filler, &mut st);
                 if !failed.get() {
                     let mut l = cell.borrow_mut();
                     l.eval();
                     l.class_n("messages-encoded", st.encoded as u64);
+                    l.class_n("excluded-by-known-findings", excluded as u64);
                     l.class_n("unbuildable-values", st.unbuildable as u64);
                     l.class_n("encoder-panics", st.encode_panics as u64);
                     for k in &st.refused {
@@ -339,29 +343,26 @@ pub fn run_c02(ctx: Ctx) -> i32 {
     report.assumption("trusted base: vcore::refcodec + vcore::refper (written from X.691 02/2021; unit-tested against a hand-derived 98-bit vector and vectors pinned in /repo/tests; self round trip on every case)");
     report.assumption("the abstract schema the ASN.1 text was printed from is the source of truth; the whole pipeline text -> parser -> constants -> runtime is inside the checked path");
     let zoo = load_zoo();
+    let replay = |c: &J| -> Result<(), Fail> {
+        let ei = find_entry(&zoo, c["module"].as_str().unwrap_or(""), c["type"].as_str().unwrap_or("")).ok_or_else(|| ("harness:replay".to_string(), "type not in the compiled zoo".to_string()))?;
+        let v: Value = serde_json::from_value(c["value"].clone()).map_err(|e| ("harness:replay".to_string(), e.to_string()))?;
+        check_c02(&zoo, ei, &v, &mut Vec::new()).map(|_| ())
+    };
     if let Some(path) = &ctx.replay {
         let j = read_replay(path);
-        let c = &j["case"];
-        let ei = match find_entry(&zoo, c["module"].as_str().unwrap_or(""), c["type"].as_str().unwrap_or("")) {
-            Some(x) => x,
-            None => {
-                eprintln!("type not in the compiled zoo");
-                return 2;
-            }
-        };
-        let v: Value = serde_json::from_value(c["value"].clone()).expect("value");
         report.eval(1);
-        match check_c02(&zoo, ei, &v, &mut Vec::new()) {
-            Ok(_) => println!("replay: case passes"),
+        match replay(&j["case"]) {
+            Ok(()) => println!("replay: case passes"),
             Err((key, msg)) => {
-                report.fail(&key, &msg, c.clone());
+                report.fail(&key, &msg, j["case"].clone());
             }
         }
         return report.finish();
     }
+    report.run_probes(&replay);
     let tier = ctx.tier;
     let conf: Vec<usize> = (0..zoo.entries.len()).filter(|i| zoo.entries[*i].conformance).collect();
-    let per_entry = tier.pick(40u32, 800u32);
+    let per_entry = tier.pick(150u32, 2500u32);
     let bad = run_in_workers(&report, 16, std::time::Duration::from_secs(tier.pick(900, 10800)), &|report: &Report| {
         let cfg = value_cfg(report, true, tier);
         report.ctx.my_shards(conf.len() as u64).par_iter().for_each(|&k| {
@@ -377,6 +378,12 @@ pub fn run_c02(ctx: Ctx) -> i32 {
             let cell = std::cell::RefCell::new(&mut local);
             let result = runner.run(&strat, |v| {
                 let mut notes = Vec::new();
+                if gen::def_excluded_by_findings(&e.module, &e.def, &v, cfg) {
+                    if !failed.get() {
+                        cell.borrow_mut().class("excluded-by-known-findings");
+                    }
+                    return Ok(());
+                }
                 let res = check_c02(&zoo, ei, &v, &mut notes);
                 if !failed.get() {
                     let mut l = cell.borrow_mut();
